@@ -2,9 +2,11 @@
 import bz2, gzip, json, os, shutil, tempfile, zlib
 from concurrent.futures import ThreadPoolExecutor
 from vlib import *
+from checks import c05_batch
 
 KEYS = ["a", "b", "c", "x"]
-WORDS = [b"pan", b"eks", b"wye", b"zee", b"hat", b"Pan", b"", b"3", b"17", b"4", b"100", b"0.5", b"-2", b"abc", b"ab", b"b", b"a"]
+# values: canonical decimal integers, words, empty (the value domain of the sort -nf/-nr model)
+WORDS = [b"pan", b"eks", b"wye", b"zee", b"hat", b"Pan", b"", b"3", b"17", b"4", b"100", b"-2", b"0", b"abc", b"ab", b"b", b"a"]
 
 
 def cb(s):
@@ -24,30 +26,40 @@ def gen_records(rng, n):
     return recs
 
 
-def gen_verb(rng, modelled_only):
-    """(mlr argv, Coq vcode or None)"""
+def modelled_pool(rng):
     k, k2 = rng.sample(KEYS, 2)
     n = rng.choice([0, 1, 2, 3, 5, 50])
-    pool = [
+    return [
         (["cat"], "VCat"), (["tac"], "VTac"), (["head", "-n", str(n)], f"(VHead {n})"), (["tail", "-n", str(n)], f"(VTail {n})"),
-        (["rename", f"{k},{k2}"], f"(VRename {cb(k)} {cb(k2)})"), (["rename", f"{k},new"], f"(VRename {cb(k)} {cb('new')})"),
+        (["rename", f"{k},{k2}"], f"(VRename {cb(k)} {cb(k2)})"), (["rename", f"{k},new"], f"(VRename {cb(k)} {cb('new')})"), (["rename", f"{k},{k}"], f"(VRename {cb(k)} {cb(k)})"),
         (["cut", "-f", f"id,{k},{k2}"], f"(VCutKeep [{cb('id')}; {cb(k)}; {cb(k2)}])"), (["cut", "-x", "-f", f"{k},{k2}"], f"(VCutDrop [{cb(k)}; {cb(k2)}])"),
         (["reorder", "-f", k], f"(VReorderHead {cb(k)})"), (["reorder", "-e", "-f", k], f"(VReorderTail {cb(k)})"),
         (["fill-down", "-f", k], f"(VFillDown false {cb(k)})"), (["fill-down", "-a", "-f", k], f"(VFillDown true {cb(k)})"),
         (["put", f'${k2} = ${k} . "a"'], f"(VPutDot {cb(k2)} {cb(k)} {cb('a')})"), (["put", f'$z = ${k} . "_s"'], f"(VPutDot {cb('z')} {cb(k)} {cb('_s')})"),
         (["cat", "-n"], "VCatN"), (["count-similar", "-g", k], f"(VCountSimilar {cb(k)})"), (["sort", "-f", k], f"(VSortF {cb(k)})"),
+        (["sort", "-nf", k], f"(VSortN false {cb(k)})"), (["sort", "-nr", k], f"(VSortN true {cb(k)})"),
+        (["label", f"id,q,{k}"], f"(VLabel [{cb('id')}; {cb('q')}; {cb(k)}])"), (["label", "w"], f"(VLabel [{cb('w')}])"), (["regularize"], "VRegularize"),
+        (["nothing"], "VNothing"),
     ]
-    extra = [
-        (["sort", "-r", k], None), (["sort", "-f", k, "-r", k2], None), (["sort", "-c", k], None), (["regularize"], None), (["unsparsify"], None),
-        (["group-like"], None), (["group-by", k], None), (["label", "id,q,r"], None), (["fill-empty"], None), (["fill-empty", "-v", "X"], None),
-        (["uniq", "-g", k], None), (["uniq", "-g", f"{k},{k2}", "-c"], None), (["count-distinct", "-f", k], None), (["nothing"], None),
+
+
+def extra_pool(rng):
+    k, k2 = rng.sample(KEYS, 2)
+    return [
+        (["sort", "-r", k], None), (["sort", "-f", k, "-r", k2], None), (["sort", "-c", k], None), (["unsparsify"], None),
+        (["group-like"], None), (["group-by", k], None), (["fill-empty"], None), (["fill-empty", "-v", "X"], None),
+        (["uniq", "-g", k], None), (["uniq", "-g", f"{k},{k2}", "-c"], None), (["count-distinct", "-f", k], None),
         (["sec2gmt", k], None), (["put", f'${k2} = toupper(${k})'], None), (["put", f'${k2} = strlen(${k})'], None), (["filter", f'${k} != "pan"'], None),
         (["filter", f'is_present(${k})'], None), (["head", "-n", "1", "-g", k], None), (["tail", "-n", "1", "-g", k], None), (["top", "-n", "2", "-f", "x", "-g", k, "-a"], None),
         (["nest", "--ivar", ";", "-f", k], None), (["sort-within-records"], None), (["template", "-f", "id,a,b,c,x"], None), (["sec2gmtdate", k], None),
         (["having-fields", "--at-least", k], None), (["decimate", "-n", "2"], None), (["count", "-g", k], None), (["cat", "-N", "idx", "-g", k], None),
         (["step", "-a", "shift,counter", "-f", k], None), (["rename", "-r", "^(.)$,f_\\1"], None), (["reorder", "-f", f"{k},{k2}"], None),
+        (["put", f'${k2} = ${k} + 1'], None), (["stats1", "-a", "count,mode", "-f", k, "-g", k2], None), (["count-similar", "-g", f"{k},{k2}"], None),
     ]
-    return rng.choice(pool if modelled_only or rng.random() < 0.45 else extra)
+
+
+def gen_verb(rng, modelled_only):
+    return rng.choice(modelled_pool(rng) if modelled_only or rng.random() < 0.45 else extra_pool(rng))
 
 
 def parse_dkvp(out):
@@ -63,9 +75,9 @@ def parse_dkvp(out):
     return recs
 
 
-def pmap(ctx, fn, jobs, workers=None):
-    workers = workers or int(os.environ.get("VERIF_PAR", "2"))    # raise on an idle machine (mlr start-up costs ~1 s CPU)
-    with ctx.timed("impl"):
+def pmap(ctx, fn, jobs, workers=None, label="impl_binary"):
+    workers = workers or c05_batch.par()
+    with ctx.timed(label):
         with ThreadPoolExecutor(max_workers=workers) as ex:
             return list(ex.map(fn, jobs))
 
@@ -87,58 +99,62 @@ def chain_args(chain):
 
 
 # ------------------------------------------------------------------------------------------ chains
-def chains(ctx, props_ok):
+def chains(ctx, props_ok, tmp):
     rng = ctx.rng
-    nchains = 24 if ctx.tier == "quick" else 1200
+    nchains = 120 if ctx.tier == "quick" else 2500
     plans = []
     for ci in range(nchains):
-        modelled = ci % 2 == 0
+        modelled = ci % 3 != 2
         length = rng.choice([2, 2, 3, 3, 4])
         verbs = [gen_verb(rng, modelled) for _ in range(length)]
         recs = gen_records(rng, rng.choice([0, 1, 4, 9, 14]))
         mid = rng.choice(["dkvp", "json", "csvlite", "dkvp"]) if ci % 3 else "dkvp"
         rpb = rng.choice([None, None, "1", "2", "3"])
-        plans.append((verbs, recs, mid, rpb))
-
-    def job(plan):
-        verbs, recs, mid, rpb = plan
-        inp = dkvp(recs)
-        pre = ["--records-per-batch", rpb] if rpb else []
-        chained = mlr(ctx, pre + chain_args([v[0] for v in verbs]), inp)
-        # the same verbs as a shell pipeline through the intermediate format
-        cur, st = inp, 0
-        piped_err = b""
-        for i, (argv, _) in enumerate(verbs):
-            fin = "dkvp" if i == 0 else mid
-            fout = "dkvp" if i == len(verbs) - 1 else mid
-            st, cur, piped_err = mlr(ctx, ["--i" + fin, "--o" + fout] + argv, cur)
-            if st != 0:
-                break
-        return chained, (st, cur, piped_err)
-
-    results = pmap(ctx, job, plans)
+        d = os.path.join(tmp, "ch%d" % ci)
+        os.mkdir(d)
+        Path(d, "in.dkvp").write_bytes(dkvp(recs))
+        plans.append({"verbs": verbs, "recs": recs, "mid": mid, "rpb": rpb, "dir": d})
+    # round 0: the chained runs; rounds 1..4: the pipe, stage by stage, through files in the intermediate format
+    jobs = [((["--records-per-batch", p["rpb"]] if p["rpb"] else []) + chain_args([v[0] for v in p["verbs"]]) + ["in.dkvp"], p["dir"]) for p in plans]
+    chained = c05_batch.run_batch(ctx, jobs)
+    c05_batch.crosscheck(ctx, jobs, chained, k=4)
+    for p in plans:
+        p["cur"], p["pst"], p["perr"] = "in.dkvp", 0, b""
+    for stage in range(4):
+        live = [p for p in plans if len(p["verbs"]) > stage and p["pst"] == 0]
+        sj = []
+        for p in live:
+            fin = "dkvp" if stage == 0 else p["mid"]
+            fout = "dkvp" if stage == len(p["verbs"]) - 1 else p["mid"]
+            sj.append((["--i" + fin, "--o" + fout] + p["verbs"][stage][0] + [p["cur"]], p["dir"]))
+        for p, (st, out, err) in zip(live, c05_batch.run_batch(ctx, sj)):
+            p["pst"], p["perr"] = st, err
+            p["cur"] = "stage%d.out" % stage
+            Path(p["dir"], p["cur"]).write_bytes(out)
+            p["piped"] = out
     terms, meta = [], []
-    for (verbs, recs, mid, rpb), (chained, piped) in zip(plans, results):
+    for p, ch in zip(plans, chained):
+        verbs, recs, mid, rpb = p["verbs"], p["recs"], p["mid"], p["rpb"]
         args = chain_args([v[0] for v in verbs])
         ctx.count(("chain", tuple(map(tuple, args)), tuple(map(tuple, recs)), mid, rpb))
         ctx.dist("chain_len:%d" % len(verbs))
         ctx.dist("chain_mid:" + mid)
         for v in verbs:
             ctx.dist("verb:" + v[0][0])
-        if chained[0] != 0 or piped[0] != 0:
-            ctx.violation({"broken": "chain or pipe run failed", "kind": "chain", "args": args, "stdin": dkvp(recs).decode(), "mid": mid,
-                           "chained_status": chained[0], "piped_status": piped[0], "stderr": (chained[2] + piped[2]).decode("latin1")[-600:]}, found_input=False)
+        desc = {"kind": "chain", "args": args, "verbs": [v[0] for v in verbs], "mid": mid, "stdin": dkvp(recs).decode(), "records_per_batch": rpb}
+        if ch[0] != 0 or p["pst"] != 0:
+            ctx.violation(dict(desc, broken="chain or pipe run failed", chained_status=ch[0], piped_status=p["pst"],
+                               stderr=(ch[2] + p["perr"]).decode("latin1")[-600:]), found_input=False)
             continue
         # ---- oracle: then-chain == pipe
-        if chained[1] != piped[1]:
-            ctx.violation({"broken": "oracle: `mlr A then B ...` differs from `mlr A | mlr B ...`", "kind": "chain", "args": args, "verbs": [v[0] for v in verbs], "mid": mid,
-                           "stdin": dkvp(recs).decode(), "records_per_batch": rpb, "observed_chained": chained[1].decode("latin1"), "observed_piped": piped[1].decode("latin1"),
-                           "class": "chain-differs-from-pipe:" + "+".join(v[0][0] for v in verbs)})
+        if ch[1] != p["piped"]:
+            ctx.violation(dict(desc, broken="oracle: `mlr A then B ...` differs from `mlr A | mlr B ...`", observed_chained=ch[1].decode("latin1"),
+                               observed_piped=p["piped"].decode("latin1"), **{"class": "chain-differs-from-pipe:" + "+".join(v[0][0] for v in verbs)}))
         if all(v[1] for v in verbs):
-            terms.append("(%s, %s, %s)" % (coq_list([v[1] for v in verbs]), coq_records(recs), coq_records(parse_dkvp(chained[1]))))
-            meta.append((args, recs, chained[1], rpb))
+            terms.append("(%s, %s, %s)" % (coq_list([v[1] for v in verbs]), coq_records(recs), coq_records(parse_dkvp(ch[1]))))
+            meta.append((desc, ch[1]))
     if meta:
-        ctx.sample({"kind": "chain", "args": meta[0][0], "stdin": dkvp(meta[0][1]).decode(), "output": meta[0][2].decode("latin1")})
+        ctx.sample(dict(meta[0][0], output=meta[0][1].decode("latin1")))
     if not props_ok:
         return
     with ctx.timed("coq_cases"):
@@ -148,34 +164,93 @@ def chains(ctx, props_ok):
         ctx.violation({"broken": "correspondence-evaluation C05chain", "detail": err[-2000:]}, found_input=False)
         return
     for i in bad[:3]:
-        args, recs, out, rpb = meta[i]
-        ctx.violation({"broken": "correspondence C05.Harness.chk_chain (chain model and implementation differ; chain = pipe holds on this input)", "kind": "chain",
-                       "args": args, "stdin": dkvp(recs).decode(), "records_per_batch": rpb, "observed": out.decode("latin1")}, found_input=False)
+        desc, out = meta[i]
+        ctx.violation(dict(desc, broken="correspondence C05.Harness.chk_chain (verb/chain model and implementation differ; chain = pipe holds on this input)",
+                           observed=out.decode("latin1")), found_input=False)
+
+
+# ------------------------------------------------------------------------------------------ obliviousness of the implementation's verbs
+def oblivious_impl(ctx, tmp):
+    """a verb that does not consult the record counters gives the same output whatever NR/FNR/FILENAME/FILENUM its input carries:
+    same records from one file, split over three files, and behind dropped leading records (NR shifted)"""
+    rng = ctx.rng
+    d = os.path.join(tmp, "obl")
+    os.mkdir(d)
+    plans, jobs = [], []
+    pool = []
+    for rep in range(2):
+        pool += modelled_pool(rng) + extra_pool(rng)
+    for vi, (argv, code) in enumerate(pool):
+        recs = gen_records(rng, 9)
+        junk = [[(b"id", b"j%d" % i), (b"a", b"junk")] for i in range(3)]
+        Path(d, "w%d.dkvp" % vi).write_bytes(dkvp(recs))
+        Path(d, "p%d_1.dkvp" % vi).write_bytes(dkvp(recs[:2]))
+        Path(d, "p%d_2.dkvp" % vi).write_bytes(dkvp(recs[2:7]))
+        Path(d, "p%d_3.dkvp" % vi).write_bytes(dkvp(recs[7:]))
+        Path(d, "j%d.dkvp" % vi).write_bytes(dkvp(junk))
+        variants = [argv + ["w%d.dkvp" % vi], argv + ["p%d_1.dkvp" % vi, "p%d_2.dkvp" % vi, "p%d_3.dkvp" % vi],
+                    ["filter", "NR > 3", "then"] + argv + ["j%d.dkvp" % vi, "w%d.dkvp" % vi]]
+        plans.append((argv, code is not None, recs))
+        jobs += [(v, d) for v in variants]
+    res = c05_batch.run_batch(ctx, jobs)
+    nbad = 0
+    for i, (argv, modelled, recs) in enumerate(plans):
+        a, b, c = res[3 * i: 3 * i + 3]
+        ctx.count(("oblivious", tuple(argv), tuple(map(tuple, recs))))
+        ctx.dist("oblivious_checked:" + ("modelled" if modelled else "oracle-pool"))
+        if a[0] != 0 or b[0] != 0 or c[0] != 0 or a[1] != b[1] or a[1] != c[1]:
+            nbad += 1
+            if nbad <= 2:
+                ctx.violation({"broken": "oracle: a verb of the type-stable pool gives different output when only NR/FNR/FILENAME/FILENUM of its input change",
+                               "kind": "oblivious", "verb": argv, "stdin": dkvp(recs).decode(), "one_file": a[1].decode("latin1"), "three_files": b[1].decode("latin1"),
+                               "nr_shifted": c[1].decode("latin1"), "statuses": [a[0], b[0], c[0]], "class": "verb-not-oblivious:" + argv[0]})
+    ctx.cov["oblivious_impl"] = {"verb_invocations": len(plans), "not_oblivious": nbad}
 
 
 # ------------------------------------------------------------------------------------------ multi-file bookkeeping
-def gen_files(rng, mode):
-    """[(name, lines)] where a line is a list of (key, value) bytes; mode in dkvp/csv/csvlite/tsv/implicit/nidx"""
+MODES = {   # name -> (main flags, Coq mode, lite, file extension, separator)
+    "dkvp": (["--idkvp"], 0, False, "dkvp", b","), "csv": (["--icsv"], 1, False, "csv", b","), "csvlite": (["--icsvlite"], 1, True, "csv", b","),
+    "tsv": (["--itsv"], 1, False, "tsv", b"\t"), "implicit": (["--icsv", "--implicit-csv-header"], 2, False, "csv", b","),
+    "implicit-lite": (["--icsvlite", "--implicit-csv-header"], 2, True, "csv", b","), "nidx": (["--inidx", "--ifs", " "], 3, False, "txt", b" "),
+}
+
+
+def gen_files(rng, mode, dedupe, ragged_flag):
+    """[(name, lines)]: a line is a list of (key, value) bytes; [] is a blank line.  Returns also whether a ragged line was generated."""
     nfiles = rng.choice([1, 2, 3, 3, 4])
     files = []
+    vals = [w for w in WORDS if w]
+    csvlike = mode in ("csv", "csvlite", "implicit", "implicit-lite")
     for j in range(nfiles):
         nrec = rng.choice([0, 0, 1, 2, 3, 6])
-        ext = {"dkvp": "dkvp", "csv": "csv", "csvlite": "csv", "tsv": "tsv", "implicit": "csv", "nidx": "txt"}[mode]
-        name = "f%d.%s" % (j + 1, ext)
-        vals = [w for w in WORDS if w]
+        name = "f%d.%s" % (j + 1, MODES[mode][3])
         if mode == "dkvp":
             lines = []
             for i in range(nrec):
-                ks = rng.sample(KEYS, rng.randint(1, 4))
+                ks = [rng.choice(KEYS) for _ in range(rng.randint(1, 4))] if rng.random() < 0.3 else rng.sample(KEYS, rng.randint(1, 4))   # duplicate keys sometimes
                 lines.append([(k.encode(), rng.choice(vals)) for k in ks])
-        elif mode in ("csv", "csvlite", "tsv"):
-            hdr = rng.sample(["a", "b", "c", "x", "y", "z"], rng.randint(1, 4))
-            header_only_or_empty = rng.random() < 0.25
-            lines = [] if (nrec == 0 and header_only_or_empty) else [[(b"", h.encode()) for h in hdr]] + [[(b"", rng.choice(vals)) for _ in hdr] for _ in range(nrec)]
+        elif mode == "nidx":
+            lines = [[(b"", rng.choice(vals)) for _ in range(rng.randint(1, 4))] for _ in range(nrec)]
         else:
-            # nidx lines may have any widths; CSV with --implicit-csv-header takes the width of the file's first line (ragged lines are an error there)
             w = rng.randint(1, 4)
-            lines = [[(b"", rng.choice(vals)) for _ in range(w if (mode == "implicit" or rng.random() < 0.7) else rng.randint(1, 4))] for _ in range(nrec)]
+            names = ["a", "b", "c", "x", "y", "z"]
+            hdr = [rng.choice(names[:3]) for _ in range(w)] if (csvlike and rng.random() < 0.3) else rng.sample(names, w)     # duplicate header fields sometimes
+            rows = []
+            for i in range(nrec):
+                wi = w
+                if csvlike and rng.random() < 0.12:
+                    wi = max(1, w + rng.choice([-1, 1, 2]))        # ragged line
+                rows.append([(b"", rng.choice(vals)) for _ in range(wi)])
+                if csvlike and rng.random() < 0.08:
+                    rows.append([])                                  # blank line: csvlite schema change / csv one-empty-field row
+                    if mode in ("csvlite",) and rng.random() < 0.8:
+                        w = rng.randint(1, 4)
+                        rows.append([(b"", h.encode()) for h in rng.sample(names, w)])   # the new schema's header
+            if mode in ("implicit", "implicit-lite"):
+                lines = rows
+            else:
+                header_only_or_empty = rng.random() < 0.25
+                lines = [] if (nrec == 0 and header_only_or_empty) else [[(b"", h.encode()) for h in hdr]] + rows
         files.append((name, lines))
     return files
 
@@ -183,13 +258,10 @@ def gen_files(rng, mode):
 def render_file(mode, lines):
     if mode == "dkvp":
         return b"".join(b",".join(k + b"=" + v for k, v in l) + b"\n" for l in lines)
-    sep = {"csv": b",", "csvlite": b",", "implicit": b",", "tsv": b"\t", "nidx": b" "}[mode]
+    sep = MODES[mode][4]
     return b"".join(sep.join(v for _, v in l) + b"\n" for l in lines)
 
 
-MODE_FLAGS = {"dkvp": ["--idkvp"], "csv": ["--icsv"], "csvlite": ["--icsvlite"], "tsv": ["--itsv"], "implicit": ["--icsv", "--implicit-csv-header"],
-              "nidx": ["--inidx", "--ifs", " "]}
-MODE_COQ = {"dkvp": 0, "csv": 1, "csvlite": 1, "tsv": 1, "implicit": 2, "nidx": 2}
 CTX_PUT = '$_nr = NR; $_fnr = FNR; $_fn = FILENAME; $_fnum = FILENUM; end { emit {"_endnr": NR} }'
 
 
@@ -201,41 +273,56 @@ def split_ctx(rec):
 
 def multifile(ctx, props_ok, tmp):
     rng = ctx.rng
-    ncases = 20 if ctx.tier == "quick" else 800
-    plans = []
+    ncases = 160 if ctx.tier == "quick" else 3000
+    plans, jobs = [], []
     for ci in range(ncases):
-        mode = rng.choice(["dkvp", "csv", "csvlite", "tsv", "implicit", "nidx", "csv"])
-        files = gen_files(rng, mode)
+        mode = rng.choice(["dkvp", "csv", "csvlite", "tsv", "implicit", "implicit-lite", "nidx", "csv", "csvlite"])
+        dedupe = rng.random() < 0.75
+        ragged_flag = rng.random() < 0.5
+        files = gen_files(rng, mode, dedupe, ragged_flag)
         d = os.path.join(tmp, "mf%d" % ci)
         os.mkdir(d)
         for name, lines in files:
             Path(d, name).write_bytes(render_file(mode, lines))
         rpb = rng.choice([None, "1", "2", "500"])
-        plans.append((mode, files, d, rpb, ci < 6))
-
-    def job(plan):
-        mode, files, d, rpb, also_alone = plan
-        pre = (["--records-per-batch", rpb] if rpb else []) + MODE_FLAGS[mode] + ["--odkvp"]
+        pre = (["--records-per-batch", rpb] if rpb else []) + MODES[mode][0] + ([] if dedupe else ["--no-dedupe-field-names"]) + \
+              (["--allow-ragged-csv-input"] if ragged_flag else []) + ["--odkvp"]
         names = [n for n, _ in files]
-        whole = mlr(ctx, pre + ["put", CTX_PUT] + names, cwd=d)
-        alone = [mlr(ctx, pre + ["cat", n], cwd=d) for n in names] if also_alone else None
-        together = mlr(ctx, pre + ["cat"] + names, cwd=d) if also_alone else None
-        return whole, alone, together
-
-    results = pmap(ctx, job, plans)
+        plan = {"mode": mode, "files": files, "dir": d, "rpb": rpb, "pre": pre, "names": names, "dedupe": dedupe, "ragged": ragged_flag, "alone": ci % 4 == 0}
+        plan["j_whole"] = len(jobs)
+        jobs.append((pre + ["put", CTX_PUT] + names, d))
+        if plan["alone"]:
+            plan["j_together"] = len(jobs)
+            jobs.append((pre + ["cat"] + names, d))
+            plan["j_alone"] = []
+            for n in names:
+                plan["j_alone"].append(len(jobs))
+                jobs.append((pre + ["cat", n], d))
+        plans.append(plan)
+    res = c05_batch.run_batch(ctx, jobs)
+    c05_batch.crosscheck(ctx, jobs, res, k=4)
     terms, meta = [], []
-    for (mode, files, d, rpb, also_alone), (whole, alone, together) in zip(plans, results):
-        names = [n for n, _ in files]
-        ctx.count(("multifile", mode, tuple((n, tuple(map(tuple, ls))) for n, ls in files), rpb))
+    nfail = 0
+    for p in plans:
+        mode, files, names, rpb = p["mode"], p["files"], p["names"], p["rpb"]
+        whole = res[p["j_whole"]]
+        ctx.count(("multifile", mode, tuple((n, tuple(map(tuple, ls))) for n, ls in files), rpb, p["dedupe"], p["ragged"]))
         ctx.dist("multifile_mode:" + mode)
         ctx.dist("multifile_nfiles:%d" % len(files))
         ctx.dist("multifile_empty_files", sum(1 for _, ls in files if not ls))
-        desc = {"kind": "multifile", "mode": mode, "args": MODE_FLAGS[mode] + ["--odkvp", "put", CTX_PUT] + names, "records_per_batch": rpb,
+        desc = {"kind": "multifile", "mode": mode, "args": p["pre"] + ["put", CTX_PUT] + names, "records_per_batch": rpb,
                 "files": {n: render_file(mode, ls).decode() for n, ls in files}}
-        if whole[0] != 0:
-            # every generated file is well-formed on its own: failing to read them in sequence is a failing input of "inputs concatenate"
-            ctx.violation(dict(desc, broken="oracle: well-formed files cannot be read in sequence", status=whole[0], stderr=whole[2].decode("latin1")[-500:],
-                               observed=whole[1].decode("latin1"), **{"class": "multi-file-run-fails:" + mode}))
+        if whole[0] not in (0, 1):
+            ctx.violation(dict(desc, broken="multi-file run died", status=whole[0], stderr=whole[2].decode("latin1")[-500:]), found_input=False)
+            continue
+        fterm = coq_list(["(%s, %s)" % (cb(n), coq_list([coq_list(["(%s, %s)" % (cb(k), cb(v)) for k, v in l]) for l in ls])) for n, ls in files])
+        oterm_opts = "(%d, %s, %s, %s)" % (MODES[mode][1], coq_bool(MODES[mode][2]), coq_bool(p["dedupe"]), coq_bool(p["ragged"]))
+        if whole[0] == 1:
+            # an error exit: legitimate only for a header/data length mismatch (the model decides)
+            nfail += 1
+            ctx.dist("multifile_error_exit")
+            terms.append("(%s, %s, [], -1)" % (oterm_opts, fterm))
+            meta.append((dict(desc, status=1, stderr=whole[2].decode("latin1")[-300:]), whole[1]))
             continue
         outs = parse_dkvp(whole[1])
         endnr = [int(dict(r)[b"_endnr"]) for r in outs if b"_endnr" in dict(r)]
@@ -248,16 +335,18 @@ def multifile(ctx, props_ok, tmp):
         for (fnum_, fn_), fnrs in per.items():
             ok = ok and fnrs == list(range(1, len(fnrs) + 1)) and 1 <= fnum_ <= len(names) and names[fnum_ - 1].encode() == fn_
         if not ok:
-            ctx.violation(dict(desc, broken="oracle: NR/FNR/FILENAME/FILENUM bookkeeping", observed=whole[1].decode("latin1"),
-                               **{"class": "context-bookkeeping:" + mode}))
-        if also_alone and all(a[0] == 0 for a in alone) and together[0] == 0:
-            if together[1] != b"".join(a[1] for a in alone):
-                ctx.violation(dict(desc, broken="oracle: reading f1..fn differs from the concatenation of reading each alone", observed_together=together[1].decode("latin1"),
-                                   observed_alone=[a[1].decode("latin1") for a in alone], **{"class": "inputs-do-not-concatenate:" + mode}))
-        fterm = coq_list(["(%s, %s)" % (cb(n), coq_list([coq_list(["(%s, %s)" % (cb(k), cb(v)) for k, v in l]) for l in ls])) for n, ls in files])
+            ctx.violation(dict(desc, broken="oracle: NR/FNR/FILENAME/FILENUM bookkeeping", observed=whole[1].decode("latin1"), **{"class": "context-bookkeeping:" + mode}))
+        if p["alone"]:
+            together = res[p["j_together"]]
+            alone = [res[j] for j in p["j_alone"]]
+            if all(a[0] == 0 for a in alone) and (together[0] != 0 or together[1] != b"".join(a[1] for a in alone)):
+                ctx.violation(dict(desc, args=p["pre"] + ["cat"] + names, broken="oracle: reading f1..fn differs from the concatenation of reading each alone",
+                                   observed_together=together[1].decode("latin1"), observed_alone=[a[1].decode("latin1") for a in alone], together_status=together[0],
+                                   **{"class": "inputs-do-not-concatenate:" + mode}))
         oterm = coq_list(["(%s, (%d, %d, %s, %d))" % (coq_record(r), c[0], c[1], cb(c[2]), c[3]) for r, c in body])
-        terms.append("(%d, %s, %s, %d)" % (MODE_COQ[mode], fterm, oterm, endnr[0] if endnr else -1))
+        terms.append("(%s, %s, %s, %d)" % (oterm_opts, fterm, oterm, endnr[0] if endnr else -2))
         meta.append((desc, whole[1]))
+    ctx.cov["multifile_error_exits"] = nfail
     if meta:
         ctx.sample(dict(meta[0][0], output=meta[0][1].decode("latin1")))
     if not props_ok:
@@ -270,8 +359,13 @@ def multifile(ctx, props_ok, tmp):
         return
     for i in bad[:3]:
         desc, out = meta[i]
-        ctx.violation(dict(desc, broken="correspondence C05.Harness.chk_files (reader/context model and implementation differ)", observed=out.decode("latin1"),
-                           **{"class": "multi-file-reader:" + desc["mode"]}))
+        if desc.get("status") == 1:
+            # every file is readable on its own terms according to the model, yet the run failed: a failing input of "inputs concatenate"
+            ctx.violation(dict(desc, broken="oracle + correspondence: files the reader model accepts cannot be read", observed=out.decode("latin1"),
+                               **{"class": "multi-file-run-fails:" + desc["mode"]}))
+        else:
+            ctx.violation(dict(desc, broken="correspondence C05.Harness.chk_files (reader/context model and implementation differ)", observed=out.decode("latin1"),
+                               **{"class": "multi-file-reader:" + desc["mode"]}))
 
 
 # ------------------------------------------------------------------------------------------ input sources, NF, end block
@@ -296,18 +390,28 @@ def sources(ctx, tmp):
             Path(d, "data.dkvp.zst").write_bytes(out)
             Path(d, "zst.bin").write_bytes(out)
     prog = ["put", '$nr = NR; $fnr = FNR']
-    variants = [("file", prog + ["plain.dkvp"], b""), ("stdin", prog, data), ("--from", ["--from", "plain.dkvp"] + prog, b""),
-                ("ext .gz", prog + ["data.dkvp.gz"], b""), ("ext .bz2", prog + ["data.dkvp.bz2"], b""), ("ext .z", prog + ["data.dkvp.z"], b""),
-                ("--gzin", ["--gzin"] + prog + ["gz.bin"], b""), ("--bz2in", ["--bz2in"] + prog + ["bz2.bin"], b""), ("--zin", ["--zin"] + prog + ["z.bin"], b""),
-                ("--gzin stdin", ["--gzin"] + prog, gzip.compress(data)),
+    # (name, args, stdin or None when the job can go through the batch driver)
+    variants = [("file", prog + ["plain.dkvp"], None), ("stdin", prog, data), ("--from", ["--from", "plain.dkvp"] + prog, None),
+                ("ext .gz", prog + ["data.dkvp.gz"], None), ("ext .bz2", prog + ["data.dkvp.bz2"], None), ("ext .z", prog + ["data.dkvp.z"], None),
+                ("--gzin", ["--gzin"] + prog + ["gz.bin"], None), ("--bz2in", ["--bz2in"] + prog + ["bz2.bin"], None), ("--zin", ["--zin"] + prog + ["z.bin"], None),
+                ("--gzin stdin", ["--gzin"] + prog, gzip.compress(data)), ("--bz2in stdin", ["--bz2in"] + prog, bz2.compress(data)),
                 ("--prepipe gunzip", ["--prepipe", "gunzip"] + prog + ["gz.bin"], b""), ("--prepipex 'gunzip <'", ["--prepipex", "gunzip <"] + prog + ["gz.bin"], b""),
                 ("--prepipe-gunzip", ["--prepipe-gunzip"] + prog + ["gz.bin"], b""), ("--prepipe cat", ["--prepipe", "cat"] + prog + ["plain.dkvp"], b""),
-                ("--records-per-batch 1", ["--records-per-batch", "1"] + prog + ["plain.dkvp"], b""), ("--records-per-batch 7", ["--records-per-batch", "7"] + prog + ["plain.dkvp"], b"")]
+                ("--records-per-batch 1", ["--records-per-batch", "1"] + prog + ["plain.dkvp"], None), ("--records-per-batch 7", ["--records-per-batch", "7"] + prog + ["plain.dkvp"], None),
+                ("--prepipe gunzip (batch driver)", ["--prepipe", "gunzip"] + prog + ["gz.bin"], None)]
     if have_zstd:
-        variants += [("ext .zst", prog + ["data.dkvp.zst"], b""), ("--zstdin", ["--zstdin"] + prog + ["zst.bin"], b"")]
+        variants += [("ext .zst", prog + ["data.dkvp.zst"], None), ("--zstdin", ["--zstdin"] + prog + ["zst.bin"], None)]
     else:
         ctx.cov["zstd"] = "zstd binary absent: .zst / --zstdin variants skipped"
-    results = pmap(ctx, lambda v: mlr(ctx, v[1], v[2], cwd=d), variants)
+    bidx = [i for i, v in enumerate(variants) if v[2] is None]
+    bres = c05_batch.run_batch(ctx, [(variants[i][1], d) for i in bidx])
+    pidx = [i for i, v in enumerate(variants) if v[2] is not None]
+    pres = pmap(ctx, lambda i: mlr(ctx, variants[i][1], variants[i][2], cwd=d), pidx)
+    results = [None] * len(variants)
+    for i, r in zip(bidx, bres):
+        results[i] = r
+    for i, r in zip(pidx, pres):
+        results[i] = r
     want = b"".join(line + b",nr=%d,fnr=%d\n" % (i + 1, i + 1) for i, line in enumerate(data.split(b"\n")[:-1]))
     for (name, args, inp), (st, out, err) in zip(variants, results):
         ctx.count(("source", name))
@@ -315,12 +419,16 @@ def sources(ctx, tmp):
         if st != 0 or out != want:
             lost = name.startswith("--prepipe") and st == 0 and want.startswith(out)
             ctx.violation({"broken": "oracle: the same records must arrive whatever the input source", "kind": "source", "source": name, "args": args,
+                           "stdin_hex": (inp or b"").hex(), "files": "plain.dkvp = data; gz.bin/bz2.bin/z.bin/zst.bin and data.dkvp.{gz,bz2,z,zst} = data compressed",
                            "data": data.decode(), "status": st, "observed": out.decode("latin1")[:3000], "stderr": err.decode("latin1")[-300:],
                            "expected": want.decode()[:3000], "class": "prepipe-output-lost" if lost else "input-source:" + name})
     prepipe_race(ctx, d, data, want)
-    # NF mid-expression, end block, multi-file NR with mixed sources
+    # NF mid-expression
     nf_prog = '$nf1 = NF; $new = 1; $nf2 = NF; unset $new; $nf3 = NF; unset $nf1; $nf4 = NF'
-    st, out, err = mlr(ctx, ["put", nf_prog], data)
+    end_prog = 'end { print NR . ":" . FNR . ":" . FILENAME . ":" . FILENUM }'
+    r_nf, r_end, r_n = c05_batch.run_batch(ctx, [(["put", nf_prog, "plain.dkvp"], d), (["put", "-q", end_prog, "plain.dkvp", "data.dkvp.gz", "data.dkvp.bz2"], d),
+                                                 (["-n", "put", "-q", 'end { print NR . ":" . FNR . ":" . FILENUM }'], d)])
+    st, out, err = r_nf
     ctx.count(("nf",))
     bad = None
     for r_in, r_out in zip(recs, parse_dkvp(out)):
@@ -334,22 +442,19 @@ def sources(ctx, tmp):
     if st != 0 or bad or len(parse_dkvp(out)) != len(recs):
         ctx.violation({"broken": "oracle: NF equals the current field count mid-expression", "kind": "nf", "args": ["put", nf_prog], "stdin": data.decode(),
                        "observed": out.decode("latin1")[:2000], "first_bad": repr(bad), "class": "nf-mid-expression"})
-    # end block after several sources: final NR, last FILENAME
-    st, out, err = mlr(ctx, ["-n", "put", "-q", 'end { print NR . ":" . FNR . ":" . FILENUM }'], b"")
-    ctx.cov["end_block_mlr_-n"] = out.decode().strip()
-    st, out, err = mlr(ctx, ["put", "-q", 'end { print NR . ":" . FNR . ":" . FILENAME . ":" . FILENUM }', "plain.dkvp", "data.dkvp.gz", "data.dkvp.bz2"], b"", cwd=d)
+    ctx.cov["end_block_mlr_-n"] = r_n[1].decode().strip()
     ctx.count(("endblock",))
     want_end = "%d:%d:data.dkvp.bz2:3" % (3 * len(recs), len(recs))
-    if out.decode().strip() != want_end:
-        ctx.violation({"broken": "oracle: the end block sees the final NR/FNR/FILENAME/FILENUM", "kind": "endblock", "observed": out.decode(), "expected": want_end,
-                       "class": "end-block-context"})
+    if r_end[1].decode().strip() != want_end:
+        ctx.violation({"broken": "oracle: the end block sees the final NR/FNR/FILENAME/FILENUM", "kind": "endblock", "args": ["put", "-q", end_prog], "data": data.decode(),
+                       "observed": r_end[1].decode(), "expected": want_end, "class": "end-block-context"})
 
 
 def prepipe_race(ctx, d, data, want):
-    """the prepipe child can exit before its output has been read: run the same prepipe'd input many times concurrently"""
+    """the prepipe child can exit before its output has been read (repaired in /repo 8dd49cc3e): the same prepipe'd input, 40 times through the mlr binary"""
     n = 40 if ctx.tier == "quick" else 400
     args = ["--prepipe", "cat", "put", '$nr = NR; $fnr = FNR', "plain.dkvp"]
-    results = pmap(ctx, lambda i: mlr(ctx, args, b"", cwd=d), range(n), workers=int(os.environ.get("VERIF_PAR", "2")))
+    results = pmap(ctx, lambda i: mlr(ctx, args, b"", cwd=d), range(n), label="impl_prepipe_40")
     short = [(st, out) for st, out, err in results if st == 0 and out != want]
     other = [(st, out, err) for st, out, err in results if st != 0]
     for i in range(n):
@@ -358,33 +463,40 @@ def prepipe_race(ctx, d, data, want):
     if short:
         st, out = short[0]
         ctx.violation({"broken": "oracle: records read through --prepipe are silently lost (exit 0) in some runs", "kind": "source", "source": "--prepipe cat (repeated)",
-                       "args": args, "data": data.decode(), "runs": n, "runs_short": len(short), "observed_records": out.count(b"\n"), "expected_records": want.count(b"\n"),
-                       "observed": out.decode("latin1")[:500], "class": "prepipe-output-lost"})
+                       "args": args, "data": data.decode(), "stdin_hex": "", "runs": n, "runs_short": len(short), "observed_records": out.count(b"\n"),
+                       "expected_records": want.count(b"\n"), "observed": out.decode("latin1")[:500], "expected": want.decode()[:3000], "class": "prepipe-output-lost"})
     if other:
         ctx.violation({"broken": "--prepipe run failed", "kind": "source", "args": args, "status": other[0][0], "stderr": other[0][2].decode("latin1")[-300:]}, found_input=False)
 
 
 def run(ctx):
-    ctx.cov["rule"] = ("(1) chains: 2..4 verbs; even-numbered cases draw only from the 17 verb invocations that have a Coq model (cat, tac, head, tail, rename, cut, cut -x, reorder, "
-                       "reorder -e, fill-down, fill-down -a, put dot-assignment, cat -n, count-similar, sort -f), the others also from ~33 further type-stable verbs; inputs: 0..14 "
-                       "heterogeneous records over keys id,a,b,c,x with missing and empty fields; `mlr A then B ...` vs the shell-style pipe through dkvp/json/csvlite, with "
-                       "--records-per-batch 1/2/3/default; modelled chains are also compared with the Coq model (vm_compute). (2) multi-file: 1..4 files (empty files, header-only "
-                       "files, differing headers) in dkvp/csv/csvlite/tsv/implicit-header/nidx, NR/FNR/FILENAME/FILENUM columns and the end block's NR compared with the Coq reader model; "
-                       "the oracle checks the bookkeeping laws and `mlr f1..fn` = concatenation of `mlr fi`. (3) sources: file, stdin, --from, .gz/.bz2/.z/.zst, --gzin/--bz2in/--zin/"
-                       "--zstdin, --prepipe/--prepipex/--prepipe-gunzip, batch sizes; NF mid-expression; end block context.")
+    ctx.cov["rule"] = ("(1) chains: 2..4 verbs; two thirds of the cases draw only from the 24 verb invocations that have a Coq model (cat, tac, head, tail, rename incl. a,a, cut, cut -x, "
+                       "reorder, reorder -e, fill-down, fill-down -a, put dot-assignment, cat -n, count-similar, sort -f/-nf/-nr, label, regularize, nothing), the others also from ~33 "
+                       "further type-stable verbs; inputs: 0..14 heterogeneous records over keys id,a,b,c,x with missing and empty fields, values canonical integers/words/empty; "
+                       "`mlr A then B ...` vs the shell-style pipe through dkvp/json/csvlite files, with --records-per-batch 1/2/3/default; modelled chains are also compared with "
+                       "the Coq model (vm_compute). (2) obliviousness of every pool verb: one file vs three files vs NR shifted by dropped records. (3) multi-file: 1..4 files "
+                       "(empty, header-only, differing headers, duplicate header fields, duplicate dkvp keys, ragged lines with and without --allow-ragged-csv-input, blank lines "
+                       "= csvlite schema change / csv one-empty-field row, --no-dedupe-field-names) in dkvp/csv/csvlite/tsv/implicit header (csv and csvlite)/nidx; NR/FNR/FILENAME/"
+                       "FILENUM columns and the end block's NR, or the error exit, compared with the Coq reader model; bookkeeping laws and `mlr f1..fn` = concatenation of `mlr fi`. "
+                       "(4) sources: file, stdin, --from, .gz/.bz2/.z/.zst, --gzin/--bz2in/--zin/--zstdin (also on stdin), --prepipe/--prepipex/--prepipe-gunzip, batch sizes; 40 "
+                       "repetitions of a --prepipe run; NF mid-expression; end block context. Most runs go through implrun mlr-batch (real ParseCommandLine + stream.Stream in one "
+                       "process), a sample is re-run through the mlr binary; stdin and prepipe variants always use the binary.")
     ctx.cov["trusted_base"] = ["Coq 8.16.1 kernel + vm_compute", "no axioms (Print Assumptions: closed under the global context)", "python harness (dkvp parser, file rendering)",
+                               "implrun mlr-batch (entrypoint.Main's process wrapper replaced; crosschecked against the binary on every run)",
                                "python gzip/bz2/zlib and the zstd binary as compressors"]
     ctx.assumptions = ["goroutine scheduling of the chain is abstracted to its Kahn-network semantics (one verb's output list is the next one's input); schedules are C04's subject",
                        "`through any lossless intermediate format` is a hypothesis of C05_chain_equals_pipe (read (write s) = s); the formats' round trips are C01's subject",
-                       "decompressors are not modelled (oracle: identical records from every source)", "CSV key de-duplication and ragged lines are outside the reader model",
-                       "NF and the DSL are not modelled in Coq for this property (oracle only)"]
+                       "decompressors are not modelled (oracle: identical records from every source)",
+                       "the Coq verb models are context-free by construction (C05_modelled_verbs_are_oblivious); that the Go verbs are is checked by the shifted-context runs",
+                       "NF and the DSL are not modelled in Coq for this property (oracle only)", "TSV reader: only well-formed files (no ragged/duplicate/blank lines)"]
     ctx.cov["correspondence"] = {}
     forbidden_gate(ctx, ["Base", "C05"])
     ok, why = check_props(ctx, "C05/Props.v", ["C05/Harness.vo", "C05/Proofs.vo"])
     nviol = len(ctx.violations)
     tmp = tempfile.mkdtemp(prefix="verif-c05-")
     try:
-        chains(ctx, ok)
+        chains(ctx, ok, tmp)
+        oblivious_impl(ctx, tmp)
         multifile(ctx, ok, tmp)
         sources(ctx, tmp)
     finally:
@@ -394,36 +506,78 @@ def run(ctx):
 
 
 def replay(ctx, path):
+    """re-run the stored input through the mlr BINARY and report again if it still fails"""
     obj = json.loads(Path(path).read_text())
     kind = obj.get("kind")
     ctx.count(("replay", 1)); ctx.count(("replay", 2))
-    if kind == "chain" and "verbs" in obj:
-        inp = obj["stdin"].encode()
-        pre = ["--records-per-batch", obj["records_per_batch"]] if obj.get("records_per_batch") else []
-        st, chained, err = mlr(ctx, pre + obj["args"], inp)
-        cur = inp
-        for i, argv in enumerate(obj["verbs"]):
-            fin = "dkvp" if i == 0 else obj["mid"]
-            fout = "dkvp" if i == len(obj["verbs"]) - 1 else obj["mid"]
-            st2, cur, err = mlr(ctx, ["--i" + fin, "--o" + fout] + argv, cur)
-        print("replay: chained=%r piped=%r" % (chained, cur))
-        if chained != cur:
-            ctx.violation(dict(obj, replayed=True))
-    elif kind == "multifile":
-        d = tempfile.mkdtemp(prefix="verif-c05-replay-")
-        try:
+    d = tempfile.mkdtemp(prefix="verif-c05-replay-")
+    try:
+        if kind == "chain":
+            inp = obj["stdin"].encode()
+            pre = ["--records-per-batch", obj["records_per_batch"]] if obj.get("records_per_batch") else []
+            st, chained, err = mlr(ctx, pre + obj["args"], inp)
+            cur, st2 = inp, 0
+            for i, argv in enumerate(obj["verbs"]):
+                fin = "dkvp" if i == 0 else obj["mid"]
+                fout = "dkvp" if i == len(obj["verbs"]) - 1 else obj["mid"]
+                st2, cur, err = mlr(ctx, ["--i" + fin, "--o" + fout] + argv, cur)
+                if st2 != 0:
+                    break
+            print("replay: chained status=%s %r\n        piped status=%s %r" % (st, chained, st2, cur))
+            if "observed_chained" in obj:
+                if chained != cur:
+                    ctx.violation(dict(obj, replayed=True))
+            elif "observed" in obj:
+                if st == 0 and chained.decode("latin1") == obj["observed"]:
+                    ctx.violation(dict(obj, replayed=True), found_input=False)    # model/implementation difference still there
+            elif st != 0 or st2 != 0:
+                ctx.violation(dict(obj, replayed=True), found_input=False)
+        elif kind == "oblivious":
+            recs = parse_dkvp(obj["stdin"].encode())
+            Path(d, "w.dkvp").write_bytes(dkvp(recs))
+            for i, part in enumerate((recs[:2], recs[2:7], recs[7:])):
+                Path(d, "p%d.dkvp" % (i + 1)).write_bytes(dkvp(part))
+            a = mlr(ctx, obj["verb"] + ["w.dkvp"], cwd=d)
+            b = mlr(ctx, obj["verb"] + ["p1.dkvp", "p2.dkvp", "p3.dkvp"], cwd=d)
+            print("replay: one file %r\n        three files %r" % (a[1], b[1]))
+            if a[0] != 0 or b[0] != 0 or a[1] != b[1]:
+                ctx.violation(dict(obj, replayed=True))
+        elif kind == "multifile":
             for n, body in obj["files"].items():
                 Path(d, n).write_text(body)
-            pre = ["--records-per-batch", obj["records_per_batch"]] if obj.get("records_per_batch") else []
-            st, out, err = mlr(ctx, pre + obj["args"], cwd=d)
-            print("replay: status=%s\n%s" % (st, out.decode("latin1")))
-            if "observed" in obj and out.decode("latin1") == obj["observed"]:
+            st, out, err = mlr(ctx, obj["args"], cwd=d)
+            print("replay: status=%s\n%s%s" % (st, out.decode("latin1"), err.decode("latin1")))
+            if "observed_together" in obj:
+                alone = [mlr(ctx, obj["args"][:-len(obj["files"])] + [n], cwd=d) for n in obj["args"][-len(obj["files"]):]]
+                if st != 0 or out != b"".join(a[1] for a in alone):
+                    ctx.violation(dict(obj, replayed=True))
+            elif obj.get("status") == 1:
+                if st != 0:
+                    ctx.violation(dict(obj, replayed=True))
+            elif out.decode("latin1") == obj.get("observed"):
                 ctx.violation(dict(obj, replayed=True))
-        finally:
-            shutil.rmtree(d, ignore_errors=True)
-    else:
-        tmp = tempfile.mkdtemp(prefix="verif-c05-")
-        try:
-            sources(ctx, tmp)
-        finally:
-            shutil.rmtree(tmp, ignore_errors=True)
+        elif kind == "source":
+            data = obj["data"].encode()
+            Path(d, "plain.dkvp").write_bytes(data)
+            for n, comp in (("gz", gzip.compress), ("bz2", bz2.compress), ("z", zlib.compress)):
+                Path(d, "data.dkvp." + n).write_bytes(comp(data))
+                Path(d, n + ".bin").write_bytes(comp(data))
+            if shutil.which("zstd"):
+                rc, out, err = sh(["zstd", "-q", "-c", os.path.join(d, "plain.dkvp")], binary=True)
+                Path(d, "data.dkvp.zst").write_bytes(out); Path(d, "zst.bin").write_bytes(out)
+            runs = obj.get("runs", 1)
+            res = pmap(ctx, lambda i: mlr(ctx, obj["args"], bytes.fromhex(obj.get("stdin_hex", "")), cwd=d), range(runs))
+            badn = sum(1 for st, out, err in res if st != 0 or out.decode("latin1")[:3000] != obj["expected"][:3000])
+            print("replay: %d of %d runs differ from the expected records" % (badn, runs))
+            if badn:
+                ctx.violation(dict(obj, replayed=True, runs_bad_now=badn))
+        elif kind in ("nf", "endblock"):
+            tmp = tempfile.mkdtemp(prefix="verif-c05-")
+            try:
+                sources(ctx, tmp)
+            finally:
+                shutil.rmtree(tmp, ignore_errors=True)
+        else:
+            print("replay: nothing replayable in", path)
+    finally:
+        shutil.rmtree(d, ignore_errors=True)
